@@ -10,6 +10,7 @@ use crate::exec::{contain, Meter, Outcome};
 use crate::stats::Stats;
 use desert::{BinaryInput, BinaryOutput, DeserializationContext, OwnedInput, SliceInput};
 use model::gen::Gen;
+use model::ty::Val;
 use model::rng::{fnv, mix, Rng};
 use serde_json::json;
 use std::cell::RefCell;
@@ -531,6 +532,29 @@ pub fn run(cat: &Catalog, cfg: &Config, stats: &mut Stats, run_seed: u64) -> Vec
                 c.fault = format!("value of {} teed through Vec<u8>, BytesMut, serialize_to_bytes, serialize_to_byte_vec, SizeCalculator, recording and paged outputs", e.name);
                 submit(c, stats, &trace);
             }
+        }
+    }
+
+    // ---- sinks, large frames: a client codec stores tens of kilobytes of poorly compressible bytes as
+    // one compressed frame (the deflater then flushes several blocks; counting and copying outputs
+    // meet short reads in the middle of the stream)
+    if cfg.focus == "C15" && sw.chance(1, 64) {
+        stats.events += 1;
+        let e = cat.by_name(if sw.chance(1, 2) { "Zipped" } else { "(Zipped, String)" }).unwrap();
+        let len = 20_000 + wl.usize_below(110_000);
+        let noisy = wl.usize_below(len + 1);
+        let mut content: Vec<u8> = (0..len).map(|i| if i < noisy { wl.below(256) as u8 } else { (i % 7) as u8 }).collect();
+        if wl.chance(1, 2) {
+            content.reverse();
+        }
+        let v = if e.name == "Zipped" { Val::Bytes(content) } else { Val::Tuple(vec![Val::Bytes(content), Val::Str("after".into())]) };
+        let enc = e.encode;
+        if let Outcome::Ok(bytes) = contain(u64::MAX, || enc(&v)).0 {
+            stats.count("probe.large_frame_through_sinks");
+            trace.push(format!("write {} ({} bytes, frame of {len} content bytes, {noisy} of them noise) through all sinks", e.name, bytes.len()));
+            let mut c = Case::new("C15", "sinks", e.name, bytes);
+            c.fault = format!("a frame of {len} content bytes teed through all sinks");
+            submit(c, stats, &trace);
         }
     }
 
